@@ -76,6 +76,8 @@ structure PObj where
   checkOnSet : Bool
   /-- `allow_refs=True`: a value may be a reference (a bound function, ..) that is resolved instead of stored -/
   allowRefs : Bool := false
+  /-- `readonly=True`: every assignment — instance, class, constructor keyword — raises TypeError (after validation) -/
+  readonly : Bool := false
   precedence : Option Int
   /-- `bounds` when it is a tuple (immutable); `none` also when `bounds` is a list (then in `mslots`) or `None` -/
   boundsTup : Option (Int × Int)
@@ -264,6 +266,7 @@ structure Decl where
   allowRefs : Bool := false
   /-- `tags=[..]` of the harness's `Tagged` Parameter subclass -/
   tags : Option (List Int) := none
+  readonly : Bool := false
   deriving DecidableEq, Repr
 
 inductive Target
@@ -317,8 +320,10 @@ def allocSlots (cells : List (List Int)) : List (Slot × List Int) → List (Slo
 def declare (cells : List (List Int)) (k : ClsId) (d : Decl) : PObj × List (List Int) :=
   let (dv, cells1) := evalLit cells d.default
   let (ms, cells2) := allocSlots cells1 (declSlots d)
-  ({ kind := d.kind, owner := .cls k, default := dv, instantiate := d.instantiate, constant := d.constant,
-     perInstance := d.perInstance, checkOnSet := d.checkOnSet, allowRefs := d.allowRefs, precedence := none,
+  -- `Parameter.__init__`: readonly => constant; `_set_instantiate`: a read-only Parameter is never instantiated
+  ({ kind := d.kind, owner := .cls k, default := dv, instantiate := d.instantiate && !d.readonly,
+     constant := d.constant || d.readonly,
+     perInstance := d.perInstance, checkOnSet := d.checkOnSet, allowRefs := d.allowRefs, readonly := d.readonly, precedence := none,
      boundsTup := d.boundsTup, mslots := ms }, cells2)
 
 def declareAll (k : ClsId) : List (List Int) → List Decl → List (Name × PObj) × List (List Int)
@@ -367,7 +372,9 @@ def setupKwargs (w : World) (k : ClsId) :
       else
       match validate cells1 p v with
       | .error e => ((vals, cells1), some e)
-      | .ok cells2 => setupKwargs w k rest cells2 (aset vals x v)
+      | .ok cells2 =>
+        if p.readonly then ((vals, cells2), some .typeError)        -- raised after `_validate` ran
+        else setupKwargs w k rest cells2 (aset vals x v)
 
 /-- the names a constructor call really assigns: keywords whose value is a reference without a value assign nothing -/
 def assignedNames (kwargs : List (Name × Lit)) : List Name :=
@@ -422,9 +429,12 @@ def doSetInstCore (w : World) (i : InstId) (x : Name) (lit : Lit) : World × Opt
       | .error e => (w1, some e)
       | .ok cells2 =>
         let w2 := { w1 with cells := cells2 }
-        if ip.constant then
-          -- initialised: only the identical object is accepted (and nothing is stored)
-          let old := (aget I.values x).getD ip.default
+        if ip.readonly then (w2, some .typeError)
+        else if ip.constant then
+          -- initialised: only the identical object is accepted (and nothing is stored); "the object it holds" is what
+          -- the attribute reads (`_held_value`): its own value, else the CLASS Parameter's current default — not the
+          -- per-instance copy's `default`, which is a snapshot taken when the copy was made
+          let old := (aget I.values x).getD P.default
           if v = old then (w2, none) else (w2, some .typeError)
         else (w2.setInst i fun I' => { I' with values := aset I'.values x v }, none)
 
@@ -446,7 +456,10 @@ def doSetClsCore (w : World) (k : ClsId) (x : Name) (lit : Lit) : World × Optio
     let w1 := ({ w with cells := cells1' }).setOwn k x p
     match validate w1.cells p v with
     | .error e => ({ w with cells := cells1' }, some e)
-    | .ok cells2 => (({ w1 with cells := cells2 }).setOwn k x { p with default := v }, none)
+    | .ok cells2 =>
+      -- a read-only Parameter rejects (TypeError) after validation: nothing was stored, the copy is removed
+      if p.readonly then ({ w with cells := cells2 }, some .typeError)
+      else (({ w1 with cells := cells2 }).setOwn k x { p with default := v }, none)
 
 /-- a reference without a value is outside the fragment except as constructor keyword -/
 def doSetInst (w : World) (i : InstId) (x : Name) (lit : Lit) : World × Option Err :=
